@@ -53,6 +53,22 @@ ToMap(rows) ==
 
 CallOps == {"Set", "SetIfEquals", "AddIfNew", "Remove", "RemoveIfEquals", "SetSymbolic"}
 
+\* BatchSet: refs[n] = v for a sequence of <<n, v>> items made as one unit (reftable batch_update; a
+\* plain loop elsewhere) and observed once, afterwards: the effect is that of the Set calls in order.
+\* Only recorded for the backends without placement; judged if every item is inside the common contract.
+RECURSIVE FoldSet(_, _, _)
+FoldSet(m, items, i) ==
+    IF i > Len(items) THEN m ELSE FoldSet(Set(m, items[i].n, items[i].v).m, items, i + 1)
+RECURSIVE AllCommon(_, _, _)
+AllCommon(m, items, i) ==
+    IF i > Len(items) THEN TRUE
+    ELSE LET c == Call("Set", items[i].n, AnyOld, items[i].v, NoName)
+             r == Apply(m, c)
+         IN  Common(m, c) /\ r.res = "True" /\ AllCommon(r.m, items, i + 1)
+BatchOutcome(items) ==
+    [res |-> "None", common |-> AllCommon(loose, items, 1), tgt |-> NoName,
+     loose |-> FoldSet(loose, items, 1), packed |-> packed, dirs |-> dirs]
+
 \* does the recorded result satisfy the specification's result class?
 ResultOK(want, e) ==
     CASE want = "NoEffect"   -> TRUE
@@ -120,6 +136,7 @@ Consume ==
            o  == IF e.op \in CallOps THEN Outcome(c)
                  ELSE IF e.op = "PackRefs" THEN PackOutcome(e.v)
                  ELSE IF e.op = "GitPack" THEN GitPackOutcome
+                 ELSE IF e.op = "BatchSet" THEN BatchOutcome(e.items)
                  ELSE [res |-> "None", common |-> TRUE, tgt |-> NoName, loose |-> loose, packed |-> packed, dirs |-> dirs]
            \* a state in which two refs collide is outside the contract (reaching it was reported)
            judged == (IsFiles \/ o.common) /\ NoCollision(effv)
